@@ -123,9 +123,8 @@ fn width_ok(vals: &[f64], mant: u32, deg: u32) -> bool {
             e += 1;
         }
         if e >= 0 {
-            if e > 40 { return false; }
-            maxn = maxn.max(m << e.min(10));
-            if e > 10 { return false; }
+            if e > 40 || (64 - m.leading_zeros()) as i64 + e > 60 { return false; }
+            maxn = maxn.max(m << e);
         } else {
             if -e > 40 { return false; }
             maxn = maxn.max(m);
